@@ -216,6 +216,38 @@ def showURes (total : Nat) : URes → String × Option Val
   | .err used => (String.ofList (List.replicate used '.') ++ "E", none)
   | .panic used => (String.ofList (List.replicate used '.') ++ "P", none)
 
+/-- the STATEFUL model of obj.Unmarshaller (slab rows, machine stack, one token per Step), started from an instance that
+    was abandoned after the first tokens of the same input.  Where machines clash in one slab row (a transform that receives
+    a type needing a transform itself, a union whose member is a union) the stateful model gets stuck; the library refuses. -/
+def pumpU (ts : Obj.Types) (a : Obj.Atlas) (it : Obj.IfaceTys) : UM.UState → List Tok → URes
+  | _, [] => .more 0
+  | s, t :: rest =>
+    match UM.ustep ts a trLib it 100000 s t with
+    | .error .stuck => .err 0
+    | .error (.f .err) => .err 0
+    | .error (.f .panic) => .panic 0
+    | .ok res =>
+      match res.done with
+      | some v => .ok v rest 1
+      | none => (pumpU ts a it res.st rest).shift 1
+
+def abandonU (ts : Obj.Types) (a : Obj.Atlas) (it : Obj.IfaceTys) : Nat → UM.UState → List Tok → UM.UState
+  | 0, s, _ => s
+  | _, s, [] => s
+  | k+1, s, t :: rest =>
+    match UM.ustep ts a trLib it 100000 s t with
+    | .error _ => s
+    | .ok res => (match res.done with | some _ => res.st | none => abandonU ts a it k res.st rest)
+
+/-- `none` = Bind itself fails -/
+def runUMach (ts : Obj.Types) (a : Obj.Atlas) (it : Obj.IfaceTys) (id : Nat) (toks : List Tok) : Option URes :=
+  let z := zeroVal ts 64 id
+  let dirty := abandonU ts a it 3 (UM.bind ts a 100000 UM.UState.fresh id z) toks
+  let s := UM.bind ts a 100000 dirty id z
+  match s.bindErr with
+  | some _ => none
+  | none => some (pumpU ts a it s toks)
+
 /-- does `Bind` (machine selection + Reset of the root machine) fail? -/
 def bindFails (ts : Obj.Types) (a : Obj.Atlas) (id : Nat) : Bool :=
   let (n, base) := peel ts 64 0 id
@@ -313,6 +345,23 @@ def mUnmarshal (st : DState) (a : Obj.Atlas) (f : String) (ti : Nat) (bs : Bytes
     | .ok rv [] _ => some rv
     | _ => none
 
+/-- `unmarshalm` / `unmarshalr`: the input through the stateful model of the unmarshaller.  With `refusalOnly` only THAT the
+    input is refused is compared (the code refuses a union whose member is a union at the member's key; the stateful model,
+    like the code before the repair, only trips at the token after it). -/
+def doUnmarshalM (st : DState) (refusalOnly : Bool) (aid tid toks : String) : Option (DState × String) :=
+  match parseNat aid, parseNat tid, parseToks toks with
+  | some ai, some ti, some tks =>
+    match st.atlases.lookup ai with
+    | some a =>
+      (match runUMach st.types a st.it ti tks with
+       | none => some (st, "M=b V=-")
+       | some r =>
+         let (fl, v) := showURes tks.length r
+         if refusalOnly && fl.endsWith "E" then some (st, "M=refused V=-") else
+         some (st, "M=" ++ fl ++ " V=" ++ (match v with | some x => showVal x | none => "-")))
+    | none => some (st, "bad-op")
+  | _, _, _ => some (st, "bad-op")
+
 def handleObj (st : DState) (parts : List String) : Option (DState × String) :=
   match parts with
   | ["T", id, d] =>
@@ -327,6 +376,8 @@ def handleObj (st : DState) (parts : List String) : Option (DState × String) :=
     match [a1, a2, a3, a4, a5, a6, a7, a8, a9].mapM parseNat with
     | some [s, b, bo, i, u, f, m, sl, ifc] => some ({ st with it := ⟨s, b, bo, i, u, f, m, sl, ifc⟩ }, "def")
     | _ => some (st, "bad-def")
+  | ["unmarshalm", aid, tid, toks] => doUnmarshalM st false aid tid toks
+  | ["unmarshalr", aid, tid, toks] => doUnmarshalM st true aid tid toks
   | ["unmarshal", aid, tid, toks] =>
     match parseNat aid, parseNat tid, parseToks toks with
     | some ai, some ti, some tks =>
